@@ -353,21 +353,21 @@ CLAIMED = {
             "mul_fix, mul_sim, mul_sim_gen and gt_exp, exp_sec, exp_dig, exp_gen, exp_sim vs k*P / a^k for every scalar class. The routines are "
             "class C (compared, not modelled).",
             "Trusted: Lean kernel; the tower spec as the definition of Fp12; constants read from the running library and checked; gt_exp* are "
-            "judged on target-group elements only; BLS12-381 and other embedding degrees not covered (PARTIAL); known finding F33.",
+            "judged on target-group elements only; BLS12-381 runs in the p381 configuration; other embedding degrees not covered (PARTIAL); known finding F33.",
             "DESIGN.md §S.2 (C12)"),
     "C04": ("Lean 4 theorems for the algebra around the pairing (final exponentiation lands in the r-torsion and is multiplicative, multi-pairing = "
             "product, bilinearity/non-degeneracy on generators extend to the groups) + per-line decision of bilinearity, non-degeneracy, order and "
             "identity behaviour of the library's pairing values with all group arithmetic done by the Lean specification",
             "PARTIAL by nature: bilinearity of the Miller-loop pairings is NOT proved (divisor theory is not available in Mathlib); it is decided "
-            "on every presented line: the library prints e(P,Q) and e(aP,bQ) for the variants pc_map, Tate, Weil, optimal ate on BN-P256 and "
-            "SM9-P256, the driver verifies with its own arithmetic that the operands are the stated multiples, e(aP,bQ) = e(P,Q)^(ab) in Fp12, "
+            "on every presented line: the library prints e(P,Q) and e(aP,bQ) for the variants pc_map, Tate, Weil, optimal ate on BN-P256, "
+            "SM9-P256 and BLS12-381, the driver verifies with its own arithmetic that the operands are the stated multiples, e(aP,bQ) = e(P,Q)^(ab) in Fp12, "
             "e(P,Q)^r = 1, e(P,Q) != 1 for non-identity operands, identity in a slot gives 1, and multi-pairings (length 0..5, identities at "
             "arbitrary positions, equal/opposite operands) equal the product of the individual pairings. Proved in Lean (6 theorems): "
             "x^((q-1)/r) has order dividing r in a finite field; the final exponentiation is multiplicative and a multi-pairing is the product; "
             "bilinearity on integer multiples of the generators gives additivity in each slot, identity slots pair to 1, and with r prime and "
             "e(g1,g2) of order r the pairing is non-degenerate on the generated groups.",
             "Trusted: Lean kernel; tower spec as the definition of Fp12; Miller loops, line functions and final-exponentiation chains are not "
-            "modelled; BLS12-381 (p381) and the k = 8, 16, 18, 24 families are not covered.",
+            "modelled; BLS12-381 runs in the p381 configuration; the k = 8, 16, 18, 24 families are not covered.",
             "DESIGN.md §S.2 (C04)"),
 }
 
